@@ -72,3 +72,9 @@ CLAIMS["C15"] = (
     "the intermediate family depends on scipy's chi2 (uninterpreted): its sign / monotonicity is checked numerically only and enters combined_family as a hypothesis; `fitted = scale * default` is the model of the `_get_threshold/_get_penalty` methods, tied numerically on a grid; MovingWindow's default threshold is translated and compared in Float but has no documented closed form to prove against.",
     "3/C15",
 )
+CLAIMS["C13"] = (
+    "Lean 4 proof that the validation model accepts exactly the valid cuts (and that accepted positions are in range) + EXHAUSTIVE model/code correspondence over the box [-2,n+2]^k for every scorer",
+    "Theorems checkRow_ok_iff, checkRowLocal_ok_iff (accept <=> the property's valid cut), accepted_positions_in_range (no wrap-around / truncation is reachable after acceptance), checkCuts_ok_iff (a batch is accepted iff every row is) in Skc/Props/C13.lean, for all n, min sizes, widths and integer rows.",
+    "the model covers width / spacing / range (and the local-anomaly inner / pooled-surroundings rules); ndim and integer-dtype tests are NumPy-container facts exercised on malformed containers; each scorer's min_size is taken from the fitted object and checked against the documented value; the exhaustive box (about 143 k tuples quick) validates the model against all 16 scorer compositions, for fresh objects and objects fitted before on another shape.",
+    "3/C13",
+)
